@@ -264,7 +264,7 @@ def generate(rng, tier):
                 a = rmat(g, 'rat', r, k); b = rmat(g, 'rat', k, c)
                 cases.append(mk('rat', a, [("mul", b)], "product-shapes", nontrivial=(r * c > 0)))
     if tier == "quick":   # a sample of the larger shapes as well
-        for _ in range(40):
+        for _ in range(30):
             r, k, c = g.range(0, 8), g.range(0, 8), g.range(0, 8)
             cases.append(mk('rat', rmat(g, 'rat', r, k), [("mul", rmat(g, 'rat', k, c))], "product-shapes-large"))
     # (b) every operation on every small shape with every index
@@ -287,6 +287,19 @@ def generate(rng, tier):
             for nr in range(0, S + 2):
                 for nc in range(0, S + 2):
                     ops.append(("add", rmat(g, 'rat', nr, nc)))
+                    if (nr, nc) == (r, c) or abs(nr - r) + abs(nc - c) == 1:
+                        ops.append(("sub", rmat(g, 'rat', nr, nc)))
+            # products with every inner dimension 0..S+1, conformable or not (shape guard of * on both sides)
+            for k in range(0, S + 2):
+                ops.append(("mul", rmat(g, 'rat', k, 1 + g.below(3))))
+                ops.append(("mul_l", rmat(g, 'rat', 1 + g.below(3), k)))
+            # compound assignments with a matrix operand: every neighbouring (mismatched) shape must be refused and
+            # leave the matrix alone; the matching shape last (one history per operator)
+            for kind in ("add_assign", "sub_assign", "add_assign_own", "sub_assign_own"):
+                hs = [(kind, rmat(g, 'rat', nr, nc)) for (nr, nc) in
+                      [(r + 1, c), (r, c + 1), (r - 1, c), (r, c - 1), (r + 1, c + 1), (c, r), (0, 0)]
+                      if nr >= 0 and nc >= 0 and (nr, nc) != (r, c)]
+                cases.append(mk('rat', m0, hs + [(kind, rmat(g, 'rat', r, c))], "shape-guards"))
             # each op runs against the same start: a state-changing op is its own one-step history; the value-returning
             # ones (and their out-of-range variants, which panic) leave the state alone and share one history per shape
             pure = [o for o in ops if o[0] in NONMUTATING]
